@@ -6,7 +6,7 @@ From Coq Require Import ExtrOcamlBasic.
 From KV Require Import Lib.Bits Lib.Bytes Lib.Varint Model.MsgSetReader Model.ReaderModel Spec.FetchSpec.
 Extraction Language OCaml.
 Extraction "c02_model.ml"
-  fetch_run fetch_close new_batch batch_read batch_run closes_conn
+  fetch_run fetch_close fetch_close_hdr hwm_of_header batch_reads reads_close new_batch batch_read batch_run closes_conn
   gen_start gen_step r_init r_step
   enc_layout enc_batch from_offset fetch_bytes fetch_response
   msg_of delivery_okb fetch_okb from between.
